@@ -11,6 +11,7 @@ import (
 	"go/token"
 	"go/types"
 	"os"
+	"reflect"
 	"slices"
 	"strings"
 
@@ -403,7 +404,7 @@ func (fr *frame) visitInstr(instr ssa.Instruction) continuation {
 		fr.env[instr] = fr.get(instr.Iter).(iter).next(fr)
 
 	case *ssa.FieldAddr:
-		p := fr.get(instr.X).(*value)
+		p := fr.realPtr(fr.get(instr.X))
 		if p == nil {
 			panic(rtPanic("invalid memory address or nil pointer dereference"))
 		}
@@ -426,6 +427,10 @@ func (fr *frame) visitInstr(instr ssa.Instruction) continuation {
 				panic(rtPanic("invalid memory address or nil pointer dereference"))
 			}
 			elems = (*x).(array)
+			elemT = derefType(instr.X.Type()).Underlying().(*types.Array).Elem()
+		case *symptr:
+			rp := fr.realPtr(x)
+			elems = (*rp).(array)
 			elemT = derefType(instr.X.Type()).Underlying().(*types.Array).Elem()
 		default:
 			panic(fmt.Sprintf("unexpected x type in IndexAddr: %T", x))
@@ -692,6 +697,12 @@ func (i *interpreter) callSSA(caller *frame, callpos token.Pos, fn *ssa.Function
 		if ext := externals[name]; ext != nil {
 			return ext(fr, args)
 		}
+		if fn.Signature.Recv() != nil && len(args) > 0 {
+			if nt, ok := args[0].(native); ok {
+				// method of an opaque host object (e.g. *regexp.Regexp)
+				return i.nativeCall(caller, reflect.ValueOf(nt.v), fn.Name(), args[1:], fn.Signature)
+			}
+		}
 		if fn.Pkg != nil {
 			i.ensureInit(fn.Pkg)
 		}
@@ -886,4 +897,19 @@ func (i *interpreter) methodOf(T types.Type, name string) *ssa.Function {
 		return nil
 	}
 	return i.prog.MethodValue(sel)
+}
+
+// realPtr turns a symbolic element address into a concrete one by splitting on the index.
+func (fr *frame) realPtr(v value) *value {
+	switch p := v.(type) {
+	case *value:
+		return p
+	case *symptr:
+		if fr.i.ex.local != nil {
+			panic(localFail{"symbolic address"})
+		}
+		i := fr.i.ex.concretize(p.idx)
+		return &p.elems[i]
+	}
+	panic(fmt.Sprintf("realPtr: %T", v))
 }
